@@ -1671,9 +1671,51 @@ def constructible(ctx):
                    f"parity of self.{rows}", pi, line)
 
 
+def no_shared_cached_arrays(ctx):
+    """LAT-1 (state outside the pytree).  A value memoised on the instance (functools.cached_property, lru_cache / cache on a
+    method) lives in the object's __dict__ / a side table: it is not a dataclass field, tree_flatten does not carry it, and
+    every caller receives the *same* array.  Handing it out uncopied makes the adjacency matrix depend on what earlier
+    callers did to it (`h *= -t`, fill_diagonal) -- and the round-tripped lattice, which rebuilds it, disagrees."""
+    memo = ("cached_property", "lru_cache", "cache")
+    n = 0
+    for ci in lattice_classes(ctx):
+        cached = {}
+        for q in ctx.p.classes[ci.qualname].mro:
+            cj = ctx.p.classes.get(q)
+            if cj is None:
+                continue
+            for mname, m in cj.methods.items():
+                if m.node is None or isinstance(m.node, ast.Lambda):
+                    continue
+                decs = [(dotted(d.func) if isinstance(d, ast.Call) else dotted(d)) or "" for d in m.node.decorator_list]
+                if any(d.split(".")[-1] in memo for d in decs):
+                    cached.setdefault(mname, m)
+        if not cached:
+            continue
+        bad = []
+        for mname, m in ctx.p.classes[ci.qualname].methods.items():
+            if mname in cached or m.node is None or isinstance(m.node, ast.Lambda):
+                continue
+            for r in ast.walk(m.node):
+                if isinstance(r, ast.Return) and r.value is not None:
+                    v = r.value
+                    if isinstance(v, ast.Call) and _self_attr(v.func) in cached and not v.args:
+                        v = v.func                         # self._adjacency()  (lru_cache on a method)
+                    a = _self_attr(v)
+                    if a in cached:
+                        bad.append(f"{mname} returns the memoised self.{a} itself (line {r.lineno})")
+        n += 1
+        ctx.ob("LAT-1", f"{ci.qualname}: memoised values are not handed out as shared mutable state", not bad,
+               "; ".join(bad[:2]) + ": every caller gets the same array, and it is not part of the pytree" if bad else
+               f"memoised {sorted(cached)} are not returned uncopied", ci.methods.get("create_adjacency_matrix") or
+               next(iter(cached.values())))
+    return n
+
+
 def run(ctx):
     _ADJ_GUARDED.clear()
     constructible(ctx)
+    no_shared_cached_arrays(ctx)
     _per_class(ctx, lat1, "LAT-1")
     _per_class(ctx, lat2, "LAT-2")
     _per_class(ctx, lat3, "LAT-3")
